@@ -1,6 +1,6 @@
 """C12 -- ORF finder: cases, implementation driver, model terms, property oracle."""
 import itertools
-from framework import coq_bs, coq_N, coq_z, coq_bool, coq_list
+from framework import coq_bs, coq_N, coq_z, coq_bool, coq_list, coq_pair
 
 ID = 'C12'
 COQ_IMPORTS = ['C12_Model']
@@ -19,17 +19,32 @@ RULE = ('exhaustive strings over {A,T,G} up to length 6 (quick) / 9 (thorough; 2
         'fresh-object searches, other rf orders / strand mixes / options, in-place edits (item and slice assignment, str.replace, data, '
         'reverse, rc, complement, rc through a basket holding the object twice) followed by a search, mutation of earlier results '
         '(pop, clear, append, reverse, location/rf/strand edits), other sequences with the same id and length, a basket holding the '
-        'object twice; every search is compared with the model on the current text, earlier results must stay unchanged; non-trivial = distinct in-domain case reporting at least one ORF, keyed by '
-        '(mode, need_stop, gapped, strand(s) reported, minlen>0)')
+        'object twice; every search is compared with the model on the current text, earlier results must stay unchanged; a degenerate grid (216 cases: every mode on empty, all-gap and one- to three-residue texts); a tail grid (576 cases: every mode x frames whose last in-frame codon is followed by 0/1/2/9 gap '
+        'columns only, after 0-2 leading columns, both strands, gap="-" and ".-"); a long-gap-run stream (220 quick / 1 500 thorough: runs of '
+        '9-40 gap columns leading, trailing, inside a start/stop codon of either strand, anywhere; all gap options and modes); a dense-frame '
+        'stream (8 quick / 60 thorough: 150-200 / 300-400 codons of one frame, 45-90 % of them stop codons, the rest mostly ATG, on either '
+        'strand: more than 64 / 128 / 256 starts and stops in one frame); a basket/feature stream (450 quick / 3 000 thorough) through '
+        'run_C12_basket: BioBasket.find_orfs on 1-4 sequences (equal ids, equal texts, empty id) or BioSeq.find_orfs, five call forms '
+        '(keywords, all keywords, rf positional, five positional, everything positional), custom feature types, numpy integers inside rf '
+        'tuples and as minlen, integral floats as minlen, need_stop as bool / numpy.bool_ / 0-1, an optional .filter(len_<op>=v) for the eight operators with thresholds on the '
+        'boundary (lengths that occur, +-1), observable [type, seqid, start, stop, strand, rf] of every feature; non-trivial = distinct '
+        'in-domain case reporting at least one ORF, keyed by (mode, need_stop, gapped, strand(s) reported, minlen>0) resp. (call form, '
+        'target, custom type, filter operator, several sequences, mode, value kinds)')
 TRUSTED = ['CPython re (finditer over the rewritten codon alternations; modelled by a hand-written leftmost non-overlapping matcher and '
            'compared on every case), bisect, dict/list operations',
            'modelled: find_orfs, _inds2orf, the part of match()/matchall() used by find_orfs with the default start/stop patterns and '
-           'gap="-" (cane.py:167-343), BioSeq.rc via the C05 model; BioSeq/BioBasket.find_orfs glue is inside the comparison']
+           'gap="-" (cane.py:167-343), BioSeq.rc via the C05 model; BioSeq.find_orfs / BioBasket.find_orfs (reduce over the per-sequence '
+           'lists, TypeError for an empty basket), the feature observables type/seqid/strand/rf set by _inds2orf, and '
+           'FeatureList.filter(len_<op>=v) by its meaning (op(len(ft), v) for ge/gt/le/lt/eq/ne/min/max); Feature/Location/Meta '
+           'constructors, UserList.__add__ and functools.reduce are trusted and compared on every basket case']
 ASSUMPTIONS = ['Python str restricted to Latin-1 code points; sequences over ACGTU, acgtu (soft-masked, only reachable in place) and "-"',
                'the Coq model has one gap symbol "-": find_orfs(gap=".") / (gap=".-") on a text gapped with "." is compared with the '
                'model (and the first-principles oracle) on the same text with "." rewritten to "-"; that sugar treats the gap symbols '
                'alike (regex class, gap positions, rc() keeping ".", rstrip) is exactly what these cases test',
-               'custom start/stop regexes, gap characters other than "-" and ftype/seqid bookkeeping are outside the model',
+               'custom start/stop regexes and gap characters other than "-" are outside the model; feature types and sequence ids are '
+               'Latin-1 strings (an id None is not generated)',
+               'rf given as ONE numpy integer is outside the domain (isinstance(rf, int) is False for it: TypeError on the unchanged tree); '
+               'numpy integers inside an rf tuple/list and as minlen, integral floats as minlen, numpy.bool_ and 0/1 as need_stop are inside',
                'domain: sequences over ACGTU-, rf tuples/lists without repeated or out-of-range frames, minlen >= 0; every '
                'need_start/need_stop mode is inside the domain']
 
@@ -201,6 +216,11 @@ def gen_cases(rng, tier):
         cases.append(_mk('CC.TAG.GGTT..TCA.TGG', 'both', gap=g))
         cases.append(_mk('.A.TGC..CCTAAT.TAGG.GCAT.', 'both', need_start='once', need_stop=False, gap=g))
     cases += _gen_gap_stream(rng, 4000 if tier == 'thorough' else 400)
+    cases += _gen_tail_grid(rng)
+    cases += _gen_degenerate_grid(rng)
+    cases += _gen_runs_stream(rng, 1500 if tier == 'thorough' else 220)
+    cases += _gen_dense_stream(rng, 60 if tier == 'thorough' else 8, 400 if tier == 'thorough' else 200)
+    cases += _gen_bk_stream(rng, 3000 if tier == 'thorough' else 450)
     cases += _gen_masked_stream(rng, 3000 if tier == 'thorough' else 300)
     for _ in range(2500 if tier == 'thorough' else 350):
         cases.append(_gen_hist(rng))
@@ -263,8 +283,258 @@ def _gen_masked_stream(rng, n):
 
 def search_cases(broken, rng):
     """a theorem / generated table / tie is red and no sampled case failed: directed stream (implementation + oracle only)"""
-    return _gen_gap_stream(rng, 1500) + _gen_masked_stream(rng, 1000) + [_mk(_rand_seq(rng, rng.choice([9, 20, 45])), **_rand_valid_cfg(rng)) for _ in range(500)]
+    return _gen_gap_stream(rng, 1500) + _gen_masked_stream(rng, 1000) + _gen_tail_grid(rng) + _gen_runs_stream(rng, 800) + _gen_bk_stream(rng, 800) + [_mk(_rand_seq(rng, rng.choice([9, 20, 45])), **_rand_valid_cfg(rng)) for _ in range(500)]
 
+
+# ----------------------------------------------------------------------------- shapes: long gap runs, frame tails, dense frames
+
+CODONS_BOTH = ('ATG', 'TAA', 'TAG', 'TGA', 'CAT', 'TTA', 'CTA', 'TCA')
+MODES = [(ns, st) for ns in ('always', 'once', 'never') for st in (True, False)]
+
+
+def _rc_plain(s):
+    return ''.join(COMP.get(c, c) for c in reversed(s))
+
+
+def _gen_tail_grid(rng):
+    """every mode on frames whose last in-frame stop (or start) is followed by k gap columns only, after j leading columns, on
+    both strands, for the default and a two-character gap option: the shapes where `last`, len(seq) and the stop end differ"""
+    out = []
+    for k in (0, 1, 2, 9):
+        for j in (0, 1, 2):
+            for bwd in (False, True):
+                for gap in ('-', '.-'):
+                    body = rng.choice(['ATGCCCTAA', 'ATGTAGCCCTGA', 'CCCTAAATGTGA', 'ATGCCC', 'TAAATG', 'CCCTAA'])
+                    lead = rng.choice(['', '-', '--', 'C', '-C-'])[:3]
+                    read = lead + 'C' * j + body + '-' * k            # the strand as it is read
+                    s = _rc_plain(read) if bwd else read
+                    for ns, st in MODES:
+                        rf = rng.choice(['both', 'bwd', -1 - j, [-1 - j, j]]) if bwd else rng.choice(['both', 'fwd', j, [j, -1 - j]])
+                        out.append(_mk(_with_gap(rng, s, gap), rf=rf, rf_tuple=True, need_start=ns, need_stop=st, gap=gap,
+                                       minlen=rng.choice([0, 0, 0, 3])))
+    return out
+
+
+def _gen_degenerate_grid(rng):
+    """every mode on empty, all-gap and one- to three-residue texts (last == 0, frame start == len, nothing to pair)"""
+    out = []
+    for s in ('', '-', '--', '---', '-' * 16, 'A', 'AC', '-A', 'A-', '--A--', 'TA', 'TAA', '-T-A-A-', 'ATG', 'CAT', 'TTA', '-C-TAA', 'TTAG-'):
+        for ns, st in MODES:
+            out.append(_mk(s, rf='both', need_start=ns, need_stop=st))
+            gap = rng.choice(['-', '.', '.-'])
+            out.append(_mk(_with_gap(rng, s, gap), rf=rng.choice([0, 1, 2, -1, -2, -3, [2, -3], [-1, 0]]), rf_tuple=rng.random() < 0.5,
+                           need_start=ns, need_stop=st, gap=gap, minlen=rng.choice([0, 0, 1, 3])))
+    return out
+
+
+def _gen_runs_stream(rng, n):
+    """long gap runs (9-40 columns, as in alignment rows): leading, trailing, inside a start/stop codon of either strand, anywhere"""
+    out = []
+    for _ in range(n):
+        s = _rand_valid_seq(rng, rng.choice([6, 9, 12, 15, 20, 30, 45]))
+        for _k in range(rng.randint(1, 3)):
+            run = '-' * rng.choice([9, 10, 12, 15, 16, 17, 20, 33, 40])
+            x = rng.random()
+            if x < 0.3:
+                s = run + s
+            elif x < 0.5:
+                s = s + run
+            elif x < 0.85:
+                hits = [i for i in range(len(s) - 2) if s[i:i + 3].replace('U', 'T') in CODONS_BOTH]
+                if hits:
+                    i = rng.choice(hits) + rng.choice([1, 2])
+                else:
+                    i = rng.randrange(len(s) + 1)
+                s = s[:i] + run + s[i:]
+            else:
+                i = rng.randrange(len(s) + 1)
+                s = s[:i] + run + s[i:]
+        gap = rng.choice(['-', '-', '.', '.-'])
+        x = rng.random()
+        if x < 0.5:
+            rf, tup = 'both', False
+        elif x < 0.7:
+            rf, tup = rng.choice([0, 1, 2, -1, -2, -3]), False
+        else:
+            fr = [0, 1, 2, -1, -2, -3]
+            rng.shuffle(fr)
+            rf, tup = fr[:rng.randint(1, 6)], rng.random() < 0.6
+        ns, st = rng.choice(MODES + [('always', True), ('never', False), ('never', True)])
+        out.append(_mk(_with_gap(rng, s, gap), rf=rf, rf_tuple=tup, need_start=ns, need_stop=st, gap=gap,
+                       minlen=rng.choice([0, 0, 0, 6, 30])))
+    return out
+
+
+def _gen_dense_stream(rng, n, maxcod):
+    """frames holding very many start and stop codons (more than 64 / 128 / 256 in one frame), on either strand"""
+    out = []
+    for k in range(n):
+        ncod = rng.randint(maxcod * 3 // 4, maxcod)
+        pstop = rng.choice([0.45, 0.6, 0.9])
+        toks = []
+        for _ in range(ncod):
+            x = rng.random()
+            toks.append(rng.choice(['TAA', 'TAG', 'TGA']) if x < pstop else 'ATG' if x < pstop + (1 - pstop) * 0.6 else
+                        ''.join(rng.choice('ACGT') for _ in range(3)))
+        j = rng.randrange(3)
+        read = 'C' * j + ''.join(toks) + rng.choice(['', 'C', 'CC'])
+        if k % 4 == 3:                                   # a few gap columns as well
+            t = list(read)
+            for _ in range(5):
+                t.insert(rng.randrange(len(t) + 1), '-')
+            read = ''.join(t)
+        bwd = k % 2 == 1
+        s = _rc_plain(read) if bwd else read
+        if rng.random() < 0.3:
+            s = s.replace('T', 'U')
+        ns, st = MODES[k % len(MODES)] if k < 2 * len(MODES) else rng.choice(MODES)
+        rf = rng.choice(['both', (-1 - j) if bwd else j, 'bwd' if bwd else 'fwd'])
+        out.append(_mk(s, rf=rf, need_start=ns, need_stop=st, minlen=rng.choice([0, 0, 9])))
+    return out
+
+
+# ----------------------------------------------------------------------------- baskets, feature observables, call forms, len filters
+
+LENOPS = ('ge', 'gt', 'le', 'lt', 'eq', 'ne', 'min', 'max')
+CALLS = ('kw', 'kwall', 'pos1', 'pos5', 'posall')
+FTYPES = ('ORF', 'ORF', 'CDS', 'orf', 'open reading frame', 'x')
+IDS = ('a', 'b', 'x', 'seq1', '', 'a', 'NC_000001.1')
+
+
+def _gen_bk_stream(rng, n):
+    """BioBasket.find_orfs / BioSeq.find_orfs with every call form (keywords, positional prefixes, everything positional), custom
+    feature types, several sequences (also equal ids, equal texts), numpy integers inside rf tuples and as minlen, integral floats as
+    minlen, and a following .filter(len_<op>=v); the observable is [type, seqid, start, stop, strand, rf] of every feature"""
+    out = []
+    for _ in range(n):
+        nseq = rng.choice([1, 1, 2, 2, 3, 4])
+        seqs = []
+        for _k in range(nseq):
+            if seqs and rng.random() < 0.15:
+                seqs.append([rng.choice(IDS), seqs[-1][1]])               # the same text again
+            else:
+                seqs.append([rng.choice(IDS), _rand_valid_seq(rng, rng.choice([6, 9, 12, 15, 20, 30, 45]))])
+        cfg = _rand_valid_cfg(rng)
+        c = _mk('', **cfg)
+        del c['s'], c['basket']
+        # thresholds on the boundary: lengths that occur (from the reference scan of the degapped strands), and their neighbours
+        lens = sorted(set(e - a for _i, s in seqs for f in _frames(cfg['rf'])
+                          for a, e in _ref_frame(_strand(s, f).replace('-', '').replace('U', 'T'), f if f >= 0 else -f - 1,
+                                                 cfg['need_start'], cfg['need_stop'])))
+        def _thr():
+            if lens and rng.random() < 0.75:
+                return max(0, rng.choice(lens) + rng.choice([0, 0, 0, 1, -1]))
+            return rng.choice([0, 3, 6, 7, 9, 12, 30])
+        if rng.random() < 0.4:
+            c['minlen'] = _thr()
+        c.update(kind='bk', seqs=seqs, ftype=rng.choice(FTYPES), call=rng.choice(CALLS),
+                 target='seq' if nseq == 1 and rng.random() < 0.5 else 'basket',
+                 flt=[rng.choice(LENOPS), _thr()] if rng.random() < 0.5 else None,
+                 rf_np=isinstance(cfg['rf'], list) and rng.random() < 0.5,
+                 minlen_kind=rng.choice(['int', 'int', 'int', 'np', 'float']),
+                 need_stop_kind=rng.choice(['bool', 'bool', 'np', 'int']))
+        out.append(c)
+    return out
+
+
+def _is_bk(case):
+    return isinstance(case, dict) and case.get('kind') == 'bk'
+
+
+def _bk_args(case):
+    """(args, kwargs) of the call in the requested form; signature find_orfs(rf, start, stop, need_start, need_stop, gap, minlen, ftype)"""
+    rf = case['rf']
+    if isinstance(rf, list):
+        if case.get('rf_np'):
+            import numpy as np
+            rf = [np.int64(f) for f in rf]
+        if case.get('rf_tuple'):
+            rf = tuple(rf)
+    m = case['minlen']
+    if case.get('minlen_kind') == 'np':
+        import numpy as np
+        m = np.int64(m)
+    elif case.get('minlen_kind') == 'float':
+        m = float(m)
+    nstop = case['need_stop']
+    if case.get('need_stop_kind') == 'np':
+        import numpy as np
+        nstop = np.bool_(nstop)
+    elif case.get('need_stop_kind') == 'int':
+        nstop = int(nstop)
+    full = [('rf', rf), ('start', 'start'), ('stop', 'stop'), ('need_start', case['need_start']), ('need_stop', nstop),
+            ('gap', '-'), ('minlen', m), ('ftype', case['ftype'])]
+    default = {'rf': 'fwd', 'start': 'start', 'stop': 'stop', 'need_start': 'always', 'need_stop': True, 'gap': '-', 'minlen': 0,
+               'ftype': 'ORF'}
+    call = case.get('call', 'kw')
+    npos = {'kw': 0, 'kwall': 0, 'pos1': 1, 'pos5': 5, 'posall': 8}.get(call, 0)
+    args = [v for _, v in full[:npos]]
+    kw = {k: v for k, v in full[npos:] if call in ('kwall', 'pos5') or not (type(v) is type(default[k]) and v == default[k])}
+    return args, kw
+
+
+def _bk_impl(case):
+    from sugar import BioSeq, BioBasket
+    objs = [BioSeq(s, id=i) for i, s in case['seqs']]
+    assert [str(o) for o in objs] == [s for _, s in case['seqs']]
+    args, kw = _bk_args(case)
+    if case.get('target') == 'seq' and len(objs) == 1:
+        r = objs[0].find_orfs(*args, **kw)
+    else:
+        r = BioBasket(objs).find_orfs(*args, **kw)
+    if case.get('flt'):
+        r = r.filter(**{'len_' + case['flt'][0]: case['flt'][1]})
+    res = []
+    for o in r:
+        assert len(o.locs) == 1 and len(o) == o.loc.stop - o.loc.start
+        st = o.loc.strand
+        res.append([o.type, o.seqid, int(o.loc.start), int(o.loc.stop), str(getattr(st, 'value', st)), int(o.meta.rf)])
+    assert [str(o) for o in objs] == [s for _, s in case['seqs']], 'a search changed a sequence'
+    return res
+
+
+def _bk_model_term(case):
+    flt = case.get('flt')
+    f = 'None' if not flt else '(Some %s)' % coq_pair(coq_N(LENOPS.index(flt[0])), coq_z(int(flt[1])))
+    seqs = coq_list([coq_pair(coq_bs(i), coq_bs(s)) for i, s in case['seqs']])
+    return 'out (run_C12_basket %s %s %s %s %s %s %s)' % (coq_bs(case['ftype']), _rf_term(case), coq_N(NS.get(case['need_start'], 0)),
+                                                          coq_bool(bool(case['need_stop'])), coq_z(int(case['minlen'])), f, seqs)
+
+
+def _bk_split_model(case, m):
+    if not (isinstance(m, list) and len(m) == 2):
+        return False, [False, m]
+    flt = case.get('flt')
+    wf = (bool(m[0]) and case['need_start'] in NS and isinstance(case['need_stop'], bool) and isinstance(case['ftype'], str)
+          and (not flt or (flt[0] in LENOPS and isinstance(flt[1], int))))
+    return wf, [wf, m[1]]
+
+
+def _lentest(op, n, v):
+    return {'ge': n >= v, 'min': n >= v, 'gt': n > v, 'le': n <= v, 'max': n <= v, 'lt': n < v, 'eq': n == v, 'ne': n != v}[op]
+
+
+def _bk_spec(case, got):
+    """first principles: the basket result is, sequence after sequence in basket order, the result of that sequence (each checked by
+    the single-sequence oracle) with the requested type and the id of the sequence, thinned by the len test"""
+    if _is_exc(got):
+        return 'raised %s' % got['e']
+    exp = []
+    for i, s in case['seqs']:
+        sub = _mk(s, rf=case['rf'], need_start=case['need_start'], need_stop=case['need_stop'], minlen=case['minlen'],
+                  rf_tuple=case.get('rf_tuple', False))
+        inner, err = _call_safe(s, _kwargs(sub), 'data')
+        if err:
+            return 'sequence %r raised %s' % (s, err)
+        why = _one_spec(sub, inner)
+        if why:
+            return 'sequence %r: %s' % (s, why)
+        for o in inner:
+            if not case.get('flt') or _lentest(case['flt'][0], o[1] - o[0], case['flt'][1]):
+                exp.append([case['ftype'], i] + o)
+    if got != exp:
+        return 'features [type, seqid, start, stop, strand, rf] %r, expected %r' % (got, exp)
+    return None
 
 # ----------------------------------------------------------------------------- implementation
 
@@ -788,10 +1058,12 @@ def _is_hist(case):
 
 
 def impl(case):
-    return _hist_impl(case) if _is_hist(case) else _one_impl(case)
+    return _hist_impl(case) if _is_hist(case) else _bk_impl(case) if _is_bk(case) else _one_impl(case)
 
 
 def model_term(case):
+    if _is_bk(case):
+        return _bk_model_term(case)
     if not _is_hist(case):
         return _one_model_term(case)
     terms = [_one_model_term(c)[len('out '):] for _, c in _hist_plan(case)]
@@ -799,6 +1071,8 @@ def model_term(case):
 
 
 def split_model(case, m):
+    if _is_bk(case):
+        return _bk_split_model(case, m)
     if not _is_hist(case):
         return _one_split_model(case, m)
     plan = _hist_plan(case)
@@ -822,6 +1096,8 @@ def agree(case, implval, modelval):
 
 
 def spec(case, got):
+    if _is_bk(case):
+        return _bk_spec(case, got)
     if not _is_hist(case):
         return _one_spec(case, got)
     if _is_exc(got):
@@ -841,6 +1117,11 @@ def spec(case, got):
 
 
 def nontrivial(case, got):
+    if _is_bk(case):
+        if _is_exc(got) or not got:
+            return None
+        return ['bk', case.get('call'), case.get('target'), case['ftype'] != 'ORF', (case.get('flt') or [None])[0], len(case['seqs']) > 1,
+                case['need_start'], case['need_stop'], bool(case.get('rf_np')), case.get('minlen_kind'), case.get('need_stop_kind')]
     if not _is_hist(case):
         return _one_nontrivial(case, got)
     if _is_exc(got) or not any(isinstance(g, list) and g for g in got):
@@ -849,48 +1130,76 @@ def nontrivial(case, got):
 
 
 def histkey(case, got):
+    if _is_bk(case):
+        return ['basket/feature stream', 'call=' + str(case.get('call')), 'target=' + str(case.get('target')), 'nseq=%d' % len(case['seqs']),
+                'ftype=' + ('ORF' if case['ftype'] == 'ORF' else 'custom'), 'filter=len_' + str((case.get('flt') or ['none'])[0]),
+                'minlen as ' + str(case.get('minlen_kind')), 'need_stop as ' + str(case.get('need_stop_kind')), 'rf elements ' + ('numpy' if case.get('rf_np') else 'int')] + (
+                ['raises=' + got['e']] if _is_exc(got) else [])
     if not _is_hist(case):
         return _one_histkey(case, got)
     return ['history'] + sorted(set('hist:' + st.get('op', '?') for st in case['steps']))
 
 
 def features(case, got):
+    if _is_bk(case):
+        return {'basket': True, 'call': case.get('call'), 'raises': got['e'] if _is_exc(got) else None}
     if not _is_hist(case):
         return _one_features(case, got)
     return {'history': True, 'ops': sorted(set(st.get('op', '?') for st in case['steps']))}
 
 
 def python_snippet(case):
+    if _is_bk(case):
+        return ("import sys; sys.path.insert(0, '/verif/tools'); from props import c12; "
+                "print(c12._bk_impl(%r))" % (case,))
     if not _is_hist(case):
         return _one_python_snippet(case)
     return ("import sys; sys.path.insert(0, '/verif/tools'); from props import c12; "
             "print(c12._hist_impl(%r))" % (case,))
 
-LEVEL_TEXT = ('Machine-checked Coq theorems (13, all closed under the global context) about a line-by-line Gallina model of find_orfs, '
-              '_frame_start, _inds2orf and the codon locator of match(). Every clause of the property text is a theorem about the model: '
+LEVEL_TEXT = ('Machine-checked Coq theorems (22, all closed under the global context) about a line-by-line Gallina model of find_orfs, '
+              '_frame_start, _inds2orf, the codon locator of match(), BioSeq/BioBasket.find_orfs and the len_* filters. Every clause of the '
+              'property text is a theorem about the model: '
               '(1) every mode, every sequence, rf, minlen, no hypothesis: the fuelled pairing loop terminates within |starts|+|stops|+1 '
               'iterations without assertion failure and every ORF lies inside the sequence, respects minlen and carries the strand/rf of a '
               'requested frame (C12_orf_invariants); minlen is a pure filter (C12_minlen_filter). (2) default mode: the output equals, '
               'frame by frame, the declarative pairing of the strictly increasing codon lists (C12_orf_default_spec, C12_codon_lists) '
               'whose meaning is proved: at most one ORF per stop, from the first start since the previous stop, no stop inside, every '
               'qualifying stop served (C12_pairing_meaning); frames without a start contribute nothing (C12_no_start_no_orf); residue '
-              'counts are multiples of three (C12_default_residues_div3, C12_default_gapfree_div3). (3) the codon lists are exactly the '
+              'counts are multiples of three (C12_default_residues_div3, C12_default_gapfree_div3). (2b) EVERY mode (need_start '
+              'always/once/never x need_stop): the output equals, frame by frame in the requested order, the exact specification of the '
+              'mode over the frame\'s start and stop positions (C12_orf_modes_spec: list equality, i.e. sound and complete); the '
+              'specifications have first-principles membership characterisations (C12_always_meaning: a start not separated by a stop '
+              'from an earlier start, closed by the first stop after it or - need_stop=False - by len(seq) when none follows; '
+              'C12_chain_meaning: once/never list the links origin -> stop -> stop ... that begin before the end of the last residue, '
+              'the origin being the first start resp. the first residue of the frame); each listed interval is reported exactly once, '
+              'in increasing order on the strand that is read (C12_modes_ordered); once/never tile the frame, every link beginning where the '
+              'previous one ends (C12_chain_tiles). (3) the codon lists are exactly the '
               'in-frame occurrences of the start/stop codons on gap-free input (C12_codons_gapfree_complete: the non-overlapping '
               'finditer loses nothing) and the images of those of the degapped sequence on gapped input (C12_codon_lists_degap); frames '
               'and the need_start="never" frame start count residues (C12_frame_counts_residues, C12_frame_start_residues). (4) P2, every '
               'mode and both strands: the ORFs of the degapped sequence are exactly the ORFs of the gapped sequence under '
-              'p -> residues before column p (C12_gap_bijection). The model is tied to sugar by differential testing on every run; an '
-              'independent codon-scan oracle checks the property text on the same cases.')
-LEVEL_NOTE = ('Trusted: Coq kernel/vm_compute, the correspondence harness, CPython re/bisect/str.rstrip. Modelled rather than verified: '
-              'find_orfs, _frame_start, _inds2orf, match() with the default start/stop patterns and gap="-" (the tie to /repo is the '
-              'differential correspondence, i.e. testing). Tested only, not proved: the exact semantics of the once/never modes beyond '
-              'invariants and the gapped/degapped correspondence (first-principles oracle), BioBasket.find_orfs = concatenation, custom '
-              'start/stop patterns (outside the claim); state independence of find_orfs (no carried state, caches, aliasing of results, '
-              'in-place shortcuts) is tested by the history stream, the pure model being applied to the current text at every step. Measured statement coverage of the modelled functions in the quick tier: '
+              'p -> residues before column p (C12_gap_bijection). (5) BioBasket.find_orfs is the concatenation in basket order of the '
+              'per-sequence results, every feature carrying the requested type and the id of its own sequence and satisfying the '
+              'invariants with respect to that sequence (C12_basket_map, C12_feature_observables); find_orfs(minlen=m) equals find_orfs() '
+              'followed by filter(len_ge=m) / len_min, a later len_ge composes as max (C12_minlen_is_len_ge), every len_<op> filter keeps '
+              'exactly the features passing the test (C12_filter_len_spec). The model is tied to sugar by differential testing on every '
+              'run (run_C12 and run_C12_basket); an independent codon-scan oracle checks the property text on the same cases.')
+LEVEL_NOTE = ('Trusted: Coq kernel/vm_compute, the correspondence harness, CPython re/bisect/str.rstrip/functools.reduce. Modelled rather '
+              'than verified: find_orfs, _frame_start, _inds2orf, match() with the default start/stop patterns and gap="-", the '
+              'BioSeq/BioBasket.find_orfs glue and FeatureList.filter(len_<op>) by its meaning (the tie to /repo is the differential '
+              'correspondence, i.e. testing). Tested only, not proved: custom start/stop patterns (outside the claim); gap options "." '
+              'and ".-" (compared with the model on the text rewritten to "-"); the call forms (positional / keyword), numpy and float '
+              'argument kinds, feature types and ids reach the model as plain values - that sugar treats them alike is what the '
+              'basket/feature stream tests; state independence of find_orfs (no carried state, caches, aliasing of results, '
+              'in-place shortcuts) is tested by the history stream, the pure model being applied to the current text at every step. '
+              'Measured statement coverage of the modelled functions in the quick tier: '
               'find_orfs 36/36, _frame_start 8/8, _inds2orf 12/12, BioSeq/BioBasket glue 11/11, match 49/53; the four missing lines of '
               'match() (cane.py:210 `sub = sub.data` for a BioSeq pattern, 223 `gaps = None` for gap=None/rf=None, 240 and 254 '
               '`return m` for matchall=False) cannot be reached through find_orfs, which always calls matchall with string patterns, '
               'gap="-" and an rf; they belong to C13. The defects never_frame_start / gap_tail found by this check are repaired in /repo '
-              '(0bbdf85); their witnesses are regression cases in corpus/C12 and an Example in C12_Props.v. rf tuples with repeated or '
-              'out-of-range frames are outside the correspondence domain (the theorems themselves need no such hypothesis). No axioms.')
+              '(0bbdf85); their witnesses are regression cases in corpus/C12 and an Example in C12_Props.v; corpus/C12/shapes.json holds '
+              'the witnesses of the round-6 self-mutation round (long gap runs, gap-only tails, positional calls, custom types, numpy '
+              'frames, boundary len filters). rf tuples with repeated or out-of-range frames, a single numpy integer as rf and an empty '
+              'basket (TypeError, modelled) are outside the correspondence domain (the theorems themselves need no such hypothesis). No axioms.')
 TECHNIQUE = 'Coq proof over an executable model + differential correspondence + first-principles oracle'
